@@ -77,6 +77,30 @@ let run_b (imp : string) (inp : string) (obs : string) : string * string =
   let model_line = if model = "PANIC" && cls = "PANIC" then base else model in
   (model_line ^ " | print=" ^ pr ^ " | rows=" ^ rows, spec)
 
+(* op C13.revolut2files: `knut import revolut2 A B`: input = the case of statement A ++ " ## " ++ hex of B ++ " | " ++
+   items of B; the model imports each file on its own (Model/Imp/Revolut2Files.v, C13_revolut2_files); the verdict
+   demands the binary's journal to be that one: nothing of one statement may appear for another *)
+let run_files (inp : string) (obs : string) : string * string =
+  match split_str " ## " inp with
+  | [first; second] ->
+    let (fl, _, items1) = split3 first in
+    let items2 = (match split_str " | " second with [_; it] -> it | _ -> "") in
+    let flags = flag_assoc fl in
+    let get k = try List.assoc k flags with Not_found -> "-" in
+    let flag k = opt_flag (get k) in
+    let a k = str_of_string (match flag k with Some s -> s | None -> "") in
+    let model = render (K.run_revolut2_files (a "acct") (a "fee") [decode_items items1; decode_items items2]) in
+    let (base, pr, _) = split_observed obs in
+    let cls = match String.index_opt base ' ' with Some i -> String.sub base 0 i | None -> base in
+    let spec =
+      if cls <> "OK" then "FAIL:well-formed statements not imported: " ^ clip 60 base
+      (* (no print verdict: two generated statements assert independent running balances of one account) *)
+      else if base <> model then "FAIL:the journal of two statements is not the journal of the first followed by the journal of the second"
+      else "ok" in
+    (model ^ " | print=" ^ pr ^ " | rows=na", spec)
+  | _ -> failwith "C13.revolut2files input"
+
 let () =
+  register "C13.revolut2files" run_files;
   List.iter (fun imp -> register ("C13." ^ imp) (run_b imp))
     ["revolut2"; "revolut"; "wise"; "swissquote"; "interactivebrokers"]
